@@ -58,7 +58,7 @@ def floors(tier):
     return {"histories": 1500, "configs_run": 9000, "operations": 50000, "handler_successes": 5000, "handler_failures": 1000,
             "plan:ok": 300, "plan:fail_once": 300, "plan:fail_always": 300, "docs_with_3plus_fragments": 500,
             "metaschema_refs_resolved": 2000, "store_doc_refs_resolved": 2000, "evictions_observed": 200,
-            "wrapped_as_RefResolutionError": 1000, "handler_docs_declaring_an_id": 500, "near_identical_url_pairs": 500, "documents_via_urlopen_transport": 300, "documents_via_requests_transport": 300, "transport_failed_first": 100,
+            "wrapped_as_RefResolutionError": 1000, "handler_docs_declaring_an_id": 500, "near_identical_url_pairs": 500, "documents_via_urlopen_transport": 300, "documents_via_requests_transport": 300, "transport_failed_first": 100, "direct_retrievals": 300,
             "direct_resolutions_content_checked": 5000}
 
 
@@ -160,7 +160,11 @@ def gen_history(rng, w):
     ops = []
     for _ in range(rng.randrange(3, 13)):
         r = rng.random()
-        if r < 0.55:
+        if r < 0.08 and (w["hdocs"] or w.get("udocs")):
+            # warming the resolver: the documented direct entry point ("does not check the store first, but after
+            # retrieving the document ... it will be saved in the store if cache_remote is True")
+            ops.append({"op": "warm", "ref": rng.choice(sorted(w["hdocs"]) + sorted(w.get("udocs") or {}))})
+        elif r < 0.55:
             ops.append({"op": "validate", "i": rng.randrange(len(w["instances"]))})
         elif r < 0.75:
             ops.append({"op": "resolve", "ref": rng.choice(w["refs"])})
@@ -248,9 +252,16 @@ def run_config(w, ops, plan, cache_remote, cache):
     net0 = tripwire.count("urlopen") + tripwire.count("socket.connect") + tripwire.count("socket.getaddrinfo")
     results = []
     other_exc = []
+    per_op = []
     for op in ops:
+        c0, u0 = len(h.calls), len(ucalls)
         try:
-            if op["op"] == "validate":
+            if op["op"] == "warm":
+                try:
+                    res = ("warmed", jdump(resolver.resolve_remote(op["ref"]))[:300])
+                except Exception as e:
+                    res = ("direct-retrieval-raised", type(e).__name__)      # resolve_remote itself does not wrap
+            elif op["op"] == "validate":
                 res = ("ok", fps(v.iter_errors(w["instances"][op["i"]])))
             elif op["op"] == "resolve":
                 url, sub = resolver.resolve(op["ref"])
@@ -266,6 +277,7 @@ def run_config(w, ops, plan, cache_remote, cache):
             res = ("exc:" + type(e).__name__, None)
             other_exc.append(type(e).__name__)
         results.append(res)
+        per_op.append([op["op"], [list(c) for c in h.calls[c0:]] + [[u, "ok"] for u in ucalls[u0:]]])
     evicted = 0
     if cache == "tiny":
         info = resolver._remote_cache.cache_info()
@@ -275,7 +287,7 @@ def run_config(w, ops, plan, cache_remote, cache):
         sys.modules.pop("requests", None)
     net = [e for e in tripwire.events() if e["event"] in ("urlopen", "socket.connect", "socket.getaddrinfo")][net0:]
     return dict(results=results, calls=h.calls + [(u, "ok") for u in ucalls], keys0=keys0, keys1=set(resolver.store), net=net,
-                other_exc=other_exc, evicted=evicted, depth=len(resolver._scopes_stack))
+                other_exc=other_exc, evicted=evicted, depth=len(resolver._scopes_stack), per_op=per_op)
 
 
 def check_history(ctx, w, ops, plan):
@@ -313,9 +325,23 @@ def check_history(ctx, w, ops, plan):
                           "network retrieval attempted for a bundled metaschema or a document supplied in store=: %r" % out["net"][:3])
         if cr:
             for doc in set(ok_calls):
-                if ok_calls.count(doc) > 1:
+                warmed, by_reference = False, 0
+                for opname, calls in out["per_op"]:
+                    for d_, o_ in calls:
+                        if d_ != doc or o_ != "ok":
+                            continue
+                        if opname == "warm":
+                            warmed = True
+                            ctx.count("direct_retrievals")
+                        else:
+                            by_reference += 1
+                            if warmed:
+                                ctx.violation("fetched-again-after-direct-retrieval", dict(case, config=cfg),
+                                              "%s was retrieved directly (resolve_remote) and then fetched again for a reference, with cache_remote=True" % doc)
+                                by_reference = -10 ** 6
+                if by_reference > 1:
                     ctx.violation("fetched-more-than-once", dict(case, config=cfg),
-                                  "%s fetched successfully %d times by one resolver with cache_remote=True" % (doc, ok_calls.count(doc)))
+                                  "%s fetched successfully %d times for references by one resolver with cache_remote=True" % (doc, by_reference))
         else:
             if out["keys1"] != out["keys0"]:
                 ctx.violation("store-grew-with-caching-off", dict(case, config=cfg),
@@ -338,7 +364,7 @@ def check_history(ctx, w, ops, plan):
             continue
         for cfg, out in outs.items():
             r = out["results"][n_]
-            if r[0] != "ok":
+            if r[0] not in ("ok", "warmed"):
                 continue
             got = r[1][1] if op["op"] == "resolve" else r[1]
             ctx.count("direct_resolutions_content_checked")
